@@ -1,4 +1,6 @@
 import Reduino.Fw.Inputs
+import Reduino.Fw.Clock
+import Reduino.Fw.InputsWrap
 import Reduino.Host.Core
 import Reduino.Lemmas.Field
 import Reduino.Lemmas.C15
@@ -109,5 +111,58 @@ example : (Ultra.measure (Ultra.init : Ultra K) 0 [0, 0, 583] [5, 5, 5, 5, 5, 5,
   have h := Lemmas.C15.run_value 3 (Ultra.init : Ultra K) 0 [0, 0, 583] [5, 5, 5, 5, 5, 5, 5, 5, 5]
   rw [← Lemmas.C15.measure_eq_run] at h
   simpa [Lemmas.C15.firstPos] using h.1
+
+/-! ### the ultrasonic rate limiter on the wrapping counter -/
+
+/-- the guard of `__redu_ultrasonic_measure_*` as the board computes it on counter values: `(should wait, for how long)` -/
+def ultraGuardW (W last now : Nat) : Bool × Nat :=
+  (decide (last ≠ 0 ∧ Clock.usub W now last < Ultra.minInterval), Ultra.minInterval - Clock.usub W now last)
+
+/-- … and as `Ultra.attempts` computes it on the natural-number clock -/
+def ultraGuard (last now : Nat) : Bool × Nat :=
+  (decide (last ≠ 0 ∧ now - last < Ultra.minInterval), Ultra.minInterval - (now - last))
+
+/-- for every counter width `W`: as long as the previous trigger was stamped less than one turn of the counter ago and not at
+    a multiple of `W` (where the stored value would read as "never"), the board's unsigned arithmetic decides the 60 ms
+    rate limit, and computes the wait, exactly as the natural-number model does — also when the counter has wrapped in between -/
+theorem ultra_guard_across_wrap (W last now : Nat) (hle : last ≤ now) (hlt : now - last < W)
+    (hnz : last = 0 ∨ last % W ≠ 0) :
+    ultraGuardW W (last % W) (now % W) = ultraGuard last now := by
+  unfold ultraGuardW ultraGuard
+  rw [Clock.counter_difference W last now hle hlt]
+  rcases hnz with h | h
+  · subst h; simp
+  · have : last ≠ 0 := by intro h0; rw [h0] at h; simp at h
+    simp [h, this]
+
+/-- the guard written with absolute times, `now < last + 60` (sum modulo `W`), is NOT sound across the wrap: 3 ms after a
+    trigger stamped 5 ms before the counter wraps (and still before the wrap) it lets the next pulse go at once -/
+theorem ultra_absolute_guard_counterexample :
+    let W := 2 ^ 32
+    let last := W - 5
+    let now := W - 2
+    decide (now % W < (last % W + 60) % W) = false ∧ (ultraGuard last now).1 = true ∧
+      (ultraGuardW W (last % W) (now % W)).1 = true := by
+  decide
+
+/-- **the whole helper on the wrapping counter.**  `Ultra.attemptsW W` is `__redu_ultrasonic_measure_*` with every clock value
+    the helper itself uses taken modulo `W`; under the side condition `SafeW` (read off the natural-number run: at each attempt
+    the previous stamp is in the past, less than one turn of the counter ago, and not a multiple of `W`) it produces the same
+    events, result and remaining inputs as the natural-number model, and its stored stamp is that model's stamp modulo `W` —
+    so `ultra_spacing`, `ultra_pulse_gap` and `ultra_value` hold of it too, also across the wrap -/
+theorem ultra_measure_across_wrap (W : Nat) (u : Ultra K) (now : Nat) (es ds : List Nat)
+    (h : Ultra.SafeW W Ultra.maxAttempts u now es ds) :
+    Ultra.attemptsW W Ultra.maxAttempts (u.onCounter W) now es ds [] =
+      { Ultra.measure u now es ds with st := (Ultra.measure u now es ds).st.onCounter W } :=
+  Lemmas.C15.ultra_measure_across_wrap_aux W Ultra.maxAttempts u now es ds [] h
+
+
+/-- the side condition is met by a call that straddles the wrap of a 32-bit counter: three attempts at real times
+    2^32 − 5, 2^32 + 35 (after the 60 ms wait) and 2^32 + 105 -/
+example : Ultra.SafeW 4294967296 Ultra.maxAttempts ({ lastTrigger := 4294967266, lastDistance := (0 : ℚ), has := false } : Ultra ℚ)
+    4294967286 [0, 0, 583] [5, 5, 5, 5, 5, 5, 5, 5, 5] := by
+  refine ⟨⟨by decide, by decide, Or.inr (by decide)⟩, Or.inr ?_⟩
+  refine ⟨⟨by decide, by decide, Or.inr (by decide)⟩, Or.inr ?_⟩
+  exact ⟨⟨by decide, by decide, Or.inr (by decide)⟩, Or.inl (by decide)⟩
 
 end Reduino.Props.C15
